@@ -54,7 +54,7 @@ type SvcCfg struct {
 }
 
 type Op struct {
-	T    string `json:"t"` // req plan send ret stop
+	T    string `json:"t"` // req plan send ret stop mreq (mreq: PlanFlush, then a Request that arrives WHILE the flush waits for its next column set)
 	S    int    `json:"s"`
 	P    int    `json:"p,omitempty"`    // promise number (req)
 	Cols []Col  `json:"cols,omitempty"` // req: row ids per column
@@ -576,7 +576,15 @@ var ours = []string{"writer/service.(*InsertServiceV2).Run", "created by main.(*
 
 // parked reports whether every goroutine of the system under test is blocked on a channel (select in Run,
 // the fake Do waiting for its release, Promise.Get); running is the number of fetch-loop goroutines alive.
-func parked() (quiet bool, running int) {
+func parked() (quiet bool, running int) { return parkedAt(nil) }
+
+// the places a goroutine of the system under test may be blocked on a MUTEX during the operation "mreq": the fetch loop waiting for the
+// column-pool mutex the harness holds (inside acquireColumns), and the Request that arrived meanwhile waiting for the service mutex
+var atPool = []string{"writer/service.StartAcq"}
+var atPoolOrRequest = []string{"writer/service.StartAcq", "writer/service.(*InsertServiceV2).Request"}
+
+// parkedAt: like parked, but a goroutine blocked in sync.Mutex.Lock below one of the listed functions counts as parked too
+func parkedAt(mutexAt []string) (quiet bool, running int) {
 	buf := make([]byte, 1<<20)
 	for {
 		n := runtime.Stack(buf, true)
@@ -608,6 +616,16 @@ func parked() (quiet bool, running int) {
 		}
 		switch m[1] {
 		case "chan receive":
+		case "sync.Mutex.Lock", "semacquire":
+			held := false
+			for _, f := range mutexAt {
+				if strings.Contains(g, f) {
+					held = true
+				}
+			}
+			if !held {
+				quiet = false
+			}
 		case "select":
 			// retry-go waits for its (zero) delay in a select on time.After: that is not a parked goroutine
 			if strings.Contains(g, "avast/retry-go") && !strings.Contains(g, "promise.(*Promise") {
@@ -650,16 +668,18 @@ func watchdog() {
 	}
 }
 
-func waitQuiet() error {
+func waitQuiet() error { return waitQuietAt(nil) }
+
+func waitQuietAt(mutexAt []string) error {
 	atomic.AddInt64(&wdBeat, 1)
 	defer atomic.AddInt64(&wdBeat, 1)
 	deadline := time.Now().Add(30 * time.Second)
 	for i := 0; ; i++ {
-		q, _ := parked()
+		q, _ := parkedAt(mutexAt)
 		if q {
 			// twice in a row with a yield in between: nothing was in the middle of being woken
 			runtime.Gosched()
-			if q2, _ := parked(); q2 {
+			if q2, _ := parkedAt(mutexAt); q2 {
 				return nil
 			}
 		}
@@ -803,6 +823,7 @@ func (r *runner) take() []Ev {
 // do executes one operation and returns what was observed until the system was quiet again
 func (r *runner) do(o *Op) []Ev {
 	b := r.b
+	early := false
 	switch o.T {
 	case "req":
 		req, err := buildReq(r.c.Svcs[o.S].Kind, o.Cols, o.Sz)
@@ -819,6 +840,59 @@ func (r *runner) do(o *Op) []Ev {
 		go watch(b, o.P, pr)
 	case "plan":
 		r.svcs[o.S].SyncService.PlanFlush()
+	case "mreq":
+		// A Request that arrives while a flush of the same service is between taking what waits and installing the next column set.
+		// The column pools of ALL insert services are guarded by one mutex (service.StartAcq / FinishAcq, taken inside every
+		// acquireColumns): the harness holds it -- standing in for another service that is acquiring its columns at that moment --,
+		// plans the flush, waits until the fetch loop is blocked on that mutex (or parked: nothing waited, no connection ...), submits
+		// the request from a goroutine of its own, waits until that goroutine has returned or is blocked on the service mutex, and only
+		// then releases the pool.  swapBuffers holds the service mutex across acquireColumns, so the request is served AFTER the swap
+		// (the model: SPlan, the fetch loop's steps, then SRequest); a swap in two critical sections lets it in between
+		// (model/IngestSwap2.v, two_step_swap_refuted): its rows travel in the block being taken, its promise waits for the next one.
+		req, err := buildReq(r.c.Svcs[o.S].Kind, o.Cols, o.Sz)
+		if err != nil {
+			b.fail(err.Error())
+			return nil
+		}
+		service.StartAcq()
+		released := false
+		release := func() {
+			if !released {
+				released = true
+				service.FinishAcq()
+			}
+		}
+		defer release()
+		r.svcs[o.S].SyncService.PlanFlush()
+		if err := waitQuietAt(atPool); err != nil {
+			b.fail("mreq, flush planned: " + err.Error())
+			return nil
+		}
+		go func() {
+			var pr *promise.Promise[uint32]
+			if p := hx.Catch(func() { pr = r.svcs[o.S].Request(req, service.INSERT_MODE_SYNC) }); p != "" {
+				b.fail("panic in Request: " + p)
+				return
+			}
+			b.log(Ev{T: "req", S: o.S, P: o.P})
+			go watch(b, o.P, pr)
+		}()
+		if err := waitQuietAt(atPoolOrRequest); err != nil {
+			b.fail("mreq, request submitted: " + err.Error())
+			return nil
+		}
+		// early: Request has RETURNED while the pool is still held -- it was served before the flush could install its next column set
+		// (or there is no flush in progress).  Otherwise it waits for the service mutex, which the fetch loop holds across acquireColumns:
+		// it is served after that critical section.  The two orders cannot be told from the log (the "swap" event is written by the
+		// OnBeforeInsert hook, concurrently with the request's return), so the order of the events of this operation is fixed below.
+		b.mu.Lock()
+		for _, e := range b.events {
+			if e.T == "req" && e.P == o.P {
+				early = true
+			}
+		}
+		b.mu.Unlock()
+		release()
 	case "send":
 		b.mu.Lock()
 		bf := b.before[o.S]
@@ -847,7 +921,19 @@ func (r *runner) do(o *Op) []Ev {
 		b.fail(err.Error())
 	}
 	evs := r.take()
-	if o.T == "req" {
+	if o.T == "mreq" && !early {
+		// the request was served after the critical section of the flush in progress: the worker's dials and its swap come first
+		var first, rest []Ev
+		for _, e := range evs {
+			if e.T == "dial" || e.T == "swap" {
+				first = append(first, e)
+			} else {
+				rest = append(rest, e)
+			}
+		}
+		evs = append(first, rest...)
+	}
+	if o.T == "req" || o.T == "mreq" {
 		// a completion seen before any Do returned was made by Request itself
 		for i := range evs {
 			if evs[i].T == "req" {
@@ -1094,12 +1180,55 @@ func (g *gen) runGenerated(c *Case) {
 		c.Obs = append(c.Obs, evs)
 		return evs
 	}
+	// mid-swap scenario (one service in the script, one worker, not stopped): [a request so that something waits,] then a request that
+	// arrives WHILE the planned flush waits for its next column set (op mreq), then the block taken is sent and answered, the next flush
+	// planned, sent and answered with the OPPOSITE outcome -- a swap that is not one critical section answers the second request with the
+	// outcome of the wrong block.  Every step is taken only if the state allows it (the script stays executable whatever the code does).
+	midswap := func(s int) {
+		w := b.base[s]
+		kind := c.Svcs[s].Kind
+		newReq := func(t string) {
+			cols, sz, rows, _ := g.request(kind, false, false)
+			if len(expand(cols[keycol[kind]])) == 0 {
+				cols, sz, rows = make([]Col, ncols[kind]), 11, 1
+				one := g.rids(1)
+				for j := range cols {
+					cols[j] = Col{one}
+				}
+			}
+			step(Op{T: t, S: s, P: rn.nextP, Cols: cols, Sz: sz})
+			rn.nextP++
+			c.Rows += rows
+		}
+		if fl, bf := state(w); !fl && !bf && r.Intn(4) != 0 {
+			newReq("req")
+		}
+		newReq("mreq")
+		first := r.Intn(2) == 0
+		for k, ok := range []bool{first, !first} {
+			if _, bf := state(w); bf && b.trouble == "" {
+				step(Op{T: "send", S: w})
+			}
+			if fl, _ := state(w); fl && b.trouble == "" {
+				step(Op{T: "ret", S: w, Ok: ok})
+			}
+			if k == 0 && b.trouble == "" {
+				step(Op{T: "plan", S: s})
+			}
+		}
+	}
 	for i := 0; i < nops && b.trouble == ""; i++ {
 		s := r.Intn(len(c.Svcs))
 		w := b.base[s] + r.Intn(b.par[s])
 		x := r.Intn(100)
 		fl, bf := state(w)
 		switch {
+		case x >= 88 && x < 97 && b.par[s] == 1 && !stopped[s] && !malformed:
+			midswap(s)
+			i += 3
+			if !strings.Contains(c.Class, "+midswap") {
+				c.Class += "+midswap"
+			}
 		case bf && x < 40:
 			step(Op{T: "send", S: w})
 		case fl && x < 45:
